@@ -131,17 +131,20 @@ func classifyError(e gwError) (string, bool) {
 		return "ETimeout", names
 	case strings.HasPrefix(e.Message, "got a null response for non-nullable field"):
 		return "ENullBubble", names
-	case names:
-		return "EDownstream", names
 	case strings.HasPrefix(e.Message, "unexpected response code"), strings.Contains(e.Message, "connection reset"),
 		strings.Contains(e.Message, "connection refused"), strings.HasPrefix(e.Message, "response exceeded maximum size"),
 		strings.HasPrefix(e.Message, "error decoding response"), strings.Contains(e.Message, "(simulated)"):
 		return "EOther", names
+	case names:
+		return "EDownstream", names
 	}
 	return "EInternal", names
 }
 
 type e2eCaseOpts struct {
+	failing    []string // service names all of whose requests fail
+	data0      *OJ      // fault-free answer
+	hasData0   bool
 	perm       *bramble.OperationPermissions
 	faults     []faultSpec
 	max        int64
@@ -204,7 +207,13 @@ func emitE2ECase(env *e2eEnv, run *e2eRun, o e2eCaseOpts) string {
 				flt = "(Some FErrorsPartial)"
 			}
 		}
-		reqs = append(reqs, "{| or_url := "+cstr(r.URL)+"; or_optype := "+cstr(r.OpType)+"; or_keyword := "+cOpKind(info.Keyword)+
+		var declared []string
+		if r.Doc != nil && len(r.Doc.Operations) > 0 {
+			for _, vd := range r.Doc.Operations[0].VariableDefinitions {
+				declared = append(declared, vd.Variable)
+			}
+		}
+		reqs = append(reqs, "{| or_varnames := "+cstrlist(sortedKeys(r.Variables))+"; or_declared := "+cstrlist(declared)+"; or_url := "+cstr(r.URL)+"; or_optype := "+cstr(r.OpType)+"; or_keyword := "+cOpKind(info.Keyword)+
 			"; or_valid := "+cbool(r.Valid)+"; or_root := "+cstr(info.Root)+"; or_doc := "+doc+
 			";\n       or_is_lookup := "+cbool(info.IsLookup)+"; or_parent := "+cstr(info.Parent)+"; or_sel := "+cSelSet(info.Sel)+"; or_ids := "+cstrlist(info.IDs)+
 			";\n       or_reply_data := "+replyData+"; or_reply_nerrs := "+fmt.Sprint(nerrs)+"; or_fault := "+flt+" |}")
@@ -228,6 +237,7 @@ func emitE2ECase(env *e2eEnv, run *e2eRun, o e2eCaseOpts) string {
 		";\n   ec_op := " + cOperation(run.Op) + ";\n   ec_vars := " + cEnv(vars) + "; ec_perm := " + perm +
 		fmt.Sprintf("; ec_max := %d; ec_fuel := %d", o.max, fuel) +
 		";\n   ec_faults := " + clist(faults) + "; ec_conforming := " + cbool(o.conforming) +
+		"; ec_failing := " + cstrlist(o.failing) + "; obs_data0 := " + copt(o.hasData0, cJSON(o.data0)) +
 		";\n   obs_requests := " + clist(reqs) + ";\n   obs_data := " + obsData + ";\n   obs_errors := " + clist(errs) + " |}"
 }
 
